@@ -199,6 +199,10 @@ class Scenario:
 
     # -- obligations -----------------------------------------------------------
     def _record(self, name, kind, lhs, rhs, **kw):
+        if lhs is None or rhs is None:
+            # a value the code was expected to hand over is missing: the obligation is plainly false (or plainly
+            # true when both sides are absent) - not a fault of the checker
+            return self.holds(name, lhs is rhs, canary=kw.get('canary', False))
         for nm, x, y in _flatten(name, lhs, rhs):
             if self.mode == 'sym':
                 self.obls.append(Obl(nm, kind, core.lift(x), core.lift(y), **kw))
@@ -614,7 +618,7 @@ class ContractRun:
         self.exits = []
 
 
-def run_symbolic(contract, cfg, modules, seed=0, pool_size=6, max_paths=64, budget_ms=4000, time_cap_s=240,
+def run_symbolic(contract, cfg, modules, seed=0, pool_size=6, max_paths=64, budget_ms=4000, time_cap_s=900,
                  check_div=True):
     """returns ContractRun"""
     name = getattr(contract, 'cname', contract.__name__) + _cfgtag(cfg)
